@@ -236,6 +236,15 @@ def build():
     enum("HEv2", [var("A", [F("a", ("opt", u8)), F("n", i32)], [("add", "n", "z5"), ("opt", "a")]), var("B", shape="unit")])
     enum("HEv3", [var("A", [F("a", ("opt", u8)), F("n", i32), F("s", ("opt", s))],
                       [("add", "n", "z5"), ("opt", "a"), ("add", "s", "(0)")]), var("B", shape="unit")])
+    # the same for constructors that START as unit constructors and gain fields later (a unit constructor written
+    # `A`, an empty tuple constructor `T()`, an empty struct constructor `S {}`): older readers must skip what newer
+    # writers added
+    enum("HUv0", [var("A", shape="unit"), var("T", shape="tuple"), var("S"), var("K", [F("k", u8)])])
+    enum("HUv1", [var("A", [F("n", i32)], [("add", "n", "z5")]), var("T", shape="tuple"),
+                  var("S", [F("q", ("opt", s))], [("add", "q", "(0)")]), var("K", [F("k", u8)])])
+    enum("HUv2", [var("A", [F("n", i32), F("m", ("seq", "vec", 0, u8))], [("add", "n", "z5"), ("add", "m", "b0102")]),
+                  var("T", [F("field0", u64)], [("add", "field0", "n7")], shape="tuple"),
+                  var("S", [F("q", ("opt", s))], [("add", "q", "(0)")]), var("K", [F("k", u8)])])
     # seeded random declarations over the small vocabulary
     rng = random.Random(20260930)
     vocab = [u8, i32, u64, s, b, ch, ("opt", u8), ("opt", s), ("seq", "vec", 0, u8), ("seq", "vec", 0, s),
